@@ -1,5 +1,6 @@
 """Run bookkeeping: obligations, floors, known findings, evidence, violation reports."""
 import hashlib
+import re
 import json
 import os
 import sys
@@ -26,7 +27,7 @@ def load_known():
         try:
             head, what = line[len("known:"):].split(" :: ", 1)
             parts = dict(p.split("=", 1) for p in head.split() if "=" in p)
-            out[(parts["property"], parts["key"])] = what.strip()
+            out[(parts["property"], re.sub(r"\|cfg=[\w/]+$", "", parts["key"]))] = what.strip()
         except Exception:
             raise SystemExit(f"known_findings.txt: malformed line: {line}")
     return out
@@ -55,6 +56,12 @@ class Run:
             self._facts[label] = load_facts(p, label)
         self.configs_used.add(label)
         return self._facts[label]
+
+    def cfgs(self, *default):
+        """configurations a rule module evaluates: its defaults in the quick tier, all five in thorough"""
+        if self.tier != "thorough":
+            return default
+        return tuple(default) + tuple(c for c in ("A", "B", "C", "D", "E") if c not in default)
 
     def touched(self, *fns):
         for f in fns:
@@ -115,7 +122,7 @@ class Run:
                 continue
             if only_key and o["key"] != only_key:
                 continue
-            k = (self.pid, o["key"])
+            k = (self.pid, re.sub(r"\|cfg=[\w/]+(#\d+)?$", "", o["key"]))
             if k in known:
                 known_hits.append((o, known[k]))
             else:
